@@ -148,27 +148,94 @@ func ListenUDP(network string, laddr *net.UDPAddr) (*UDPConn, error) {
 }
 
 func ListenPacket(network, address string) (net.PacketConn, error) {
-	ap, err := netip.ParseAddrPort(address)
+	var lc ListenConfig
+	return lc.ListenPacket(context.Background(), network, address)
+}
+
+// ListenConfig stands in for net.ListenConfig (same field names); only packet sockets are simulated.
+type ListenConfig struct {
+	Control         func(network, address string, c syscall.RawConn) error
+	KeepAlive       time.Duration
+	KeepAliveConfig net.KeepAliveConfig
+}
+
+// controlReuse runs a Control callback of the library for real against a throw-away kernel socket
+// and reports whether it set SO_REUSEADDR.
+func controlReuse(control func(network, address string, c syscall.RawConn) error, proto, address string) (bool, error) {
+	if control == nil {
+		return false, nil
+	}
+	typ := syscall.SOCK_DGRAM
+	if proto == "tcp" {
+		typ = syscall.SOCK_STREAM
+	}
+	fd, serr := syscall.Socket(syscall.AF_INET, typ, 0)
+	if serr != nil {
+		return false, os.NewSyscallError("socket", serr)
+	}
+	defer syscall.Close(fd)
+	if cerr := control(proto+"4", address, &rawConn{fd: fd}); cerr != nil {
+		return false, cerr
+	}
+	if v, gerr := syscall.GetsockoptInt(fd, syscall.SOL_SOCKET, syscall.SO_REUSEADDR); gerr == nil && v != 0 {
+		return true, nil
+	}
+	return false, nil
+}
+
+func (lc *ListenConfig) ListenPacket(ctx context.Context, network, address string) (net.PacketConn, error) {
+	switch network {
+	case "udp", "udp4":
+	case "udp6":
+		return nil, &net.OpError{Op: "listen", Net: network, Err: syscall.EAFNOSUPPORT}
+	default:
+		return nil, &net.OpError{Op: "listen", Net: network, Err: net.UnknownNetworkError(network)}
+	}
+	ap, err := parseListenAddr(address)
 	if err != nil {
-		if address == "" || address[0] == ':' {
-			var port uint16
-			if len(address) > 1 {
-				n := 0
-				for _, ch := range address[1:] {
-					n = n*10 + int(ch-'0')
-				}
-				port = uint16(n)
-			}
-			ap = netip.AddrPortFrom(netip.IPv4Unspecified(), port)
-		} else {
-			return nil, &net.OpError{Op: "listen", Net: network, Err: err}
+		return nil, &net.OpError{Op: "listen", Net: network, Err: err}
+	}
+	reuse, cerr := controlReuse(lc.Control, "udp", address)
+	if cerr != nil {
+		return nil, &net.OpError{Op: "listen", Net: network, Err: cerr}
+	}
+	raceDisable()
+	defer raceEnable()
+	p := post(current(), &req{kind: rListenUDP, local: ap, proto: "udp", reuse: reuse})
+	if p.err != nil {
+		return nil, p.err.toErr(network, nil, udpAddr(ap))
+	}
+	return &UDPConn{k: p.sock}, nil
+}
+
+// Listen (stream listeners) is not simulated: the library never accepts connections.
+func (lc *ListenConfig) Listen(ctx context.Context, network, address string) (net.Listener, error) {
+	return nil, &net.OpError{Op: "listen", Net: network, Err: &simError{"stream listeners are not simulated"}}
+}
+
+func parseListenAddr(address string) (netip.AddrPort, error) {
+	ap, err := netip.ParseAddrPort(address)
+	if err == nil {
+		ap = netip.AddrPortFrom(ap.Addr().Unmap(), ap.Port())
+		if !ap.Addr().Is4() {
+			return ap, syscall.EAFNOSUPPORT
 		}
+		return ap, nil
 	}
-	c, e := ListenUDP(network, udpAddr(ap))
-	if e != nil {
-		return nil, e
+	if address == "" || address[0] == ':' {
+		n := 0
+		for _, ch := range address[min(1, len(address)):] {
+			if ch < '0' || ch > '9' || n > 65535 {
+				return netip.AddrPort{}, err
+			}
+			n = n*10 + int(ch-'0')
+		}
+		if n > 65535 {
+			return netip.AddrPort{}, err
+		}
+		return netip.AddrPortFrom(netip.IPv4Unspecified(), uint16(n)), nil
 	}
-	return c, nil
+	return netip.AddrPort{}, err
 }
 
 func DialUDP(network string, laddr, raddr *net.UDPAddr) (*UDPConn, error) {
